@@ -48,7 +48,7 @@ def snap(h):
         nodes[n.idx] = {"op": enc(d.op), "parent": d.parent.idx if d.parent is not None else None,
                         "children": [c.idx for c in h.children(Node(n.idx))],
                         "metadata": json.loads(json.dumps(d.metadata, sort_keys=True, default=repr)),
-                        "nout": h.num_out_ports(Node(n.idx))}
+                        "nout": h.num_out_ports(Node(n.idx)), "nin": h.num_in_ports(Node(n.idx))}
     links = Counter((s.node.idx, s.offset, t.node.idx, t.offset) for s, t in h.links())
     return {"nodes": nodes, "links": links}
 
@@ -104,6 +104,9 @@ def check_embedding(ctx, sA, sB, sA2, sB2, m, parent, stratum, case, m_is_return
         want_children = d["children"] + ([m[broot]] if i == parent else [])
         if a["op"] != d["op"] or a["parent"] != d["parent"] or a["metadata"] != d["metadata"]:
             bad("old-node-changed", i, d, a)
+        if m_is_returned and (a["nout"], a["nin"]) != (d["nout"], d["nin"]):
+            # (plain insert_hugr attaches nothing to A's nodes: their port counts stay what they were)
+            bad("old-node-port-counts-changed", i, [d["nin"], d["nout"]], [a["nin"], a["nout"]])
         if a["children"] != want_children:
             bad("old-children-changed", i, want_children, a["children"])
     return want_links, got_links, old_links
@@ -314,6 +317,31 @@ def run(ctx):
     for i in ctx.mine(ctx.n(1500, 50000)):
         r = ctx.rng("insert", i)
         case = {"A": gen_spec(r), "B": gen_spec(r, small=True), "parent": r.randrange(1000)}
+        nt = ctx.guard("insert_hugr", case, check_insert, ctx, case)
+        ctx.case("insert_hugr", case, bool(nt))
+    # B whose child lists are out of index order (freed indices re-used) into an A with several freed indices (the
+    # copies land on A's freed indices last-freed-first, so the mapping is not monotone)
+    for i in ctx.mine(ctx.n(300, 10000)):
+        r = ctx.rng("reuse", i)
+        na = r.randint(4, 8)
+        a_steps = [["add_node", r.choice([0] * 3 + list(range(1, k + 1))) if k else 0, r.choice([None, 1, 2]), None]
+                   for k in range(na)]
+        a_spec = {"exec": a_steps}
+        # delete leaves of A in random order: handles that are nobody's parent
+        parents = {st[1] for st in a_steps}
+        leaves = [h for h in range(1, na + 1) if h not in parents]
+        r.shuffle(leaves)
+        a_steps += [["delete_node", h] for h in leaves[:r.randint(min(3, len(leaves)), len(leaves))]]
+        nb = r.randint(3, 5)
+        b_steps = [["add_node", 0, r.choice([None, 1, 2]), {"k": k} if r.random() < 0.3 else None] for k in range(nb)]
+        dead = r.sample(range(1, nb + 1), r.randint(1, nb - 1))
+        b_steps += [["delete_node", h] for h in dead]
+        b_steps += [["add_node", 0, 1, None] for _ in range(r.randint(1, len(dead)))]
+        live = [h for h in range(1, nb + 1) if h not in dead]
+        if len(live) >= 2 and r.random() < 0.6:
+            b_steps.append(["add_link", live[0], 0, live[1], 0])
+        case = {"A": a_spec, "B": {"exec": b_steps}, "parent": r.choice([0, 0, r.randrange(1000)])}
+        ctx.feat("feature:reused-B-into-holed-A")
         nt = ctx.guard("insert_hugr", case, check_insert, ctx, case)
         ctx.case("insert_hugr", case, bool(nt))
     for i in ctx.mine(ctx.n(400, 12000)):
